@@ -1,7 +1,7 @@
 """C10 — adaptive fit scales intensity and chroma uniformly and stays inside the gamut."""
 import numpy as np
 from fractions import Fraction
-from common import F, rs, vs, ms, dyadic, close, call, parse_rat
+from common import F, rs, vs, ms, dyadic, close, call, parse_rat, as_given
 from systems import gen_A, gen_K, gen_baseline, apply_K
 from fitlib import ub_text
 
@@ -34,7 +34,28 @@ def lp_duals(cost, G, h, lb, ub):
     return np.maximum(-np.asarray(res.ineqlin.marginals), 0.0)
 
 
-SMAX = 1.0e4   # the optimality certificate ranges over all feasible pairs with both scales <= SMAX
+SMAX = 1.0e4   # fallback only: if the multipliers cannot be repaired the certificate ranges over pairs with both scales <= SMAX
+
+
+def repair_for_unbounded_scales(cost, G, lam):
+    """The two scales have no upper bound, so the reduced costs (cost + G^T lam) of the last two coordinates must be >= 0 EXACTLY
+    for the verified bound to be finite; floating-point multipliers miss that by rounding. Raise the multiplier of one row with a
+    positive coefficient until the reduced cost is a small positive margin (lower bound of the scales is 0, so a positive reduced
+    cost costs nothing; the extra lam_i * h_i is ~1e-9). First the chroma scale (radial rows also touch the intensity scale), then the
+    intensity scale (total rows touch nothing else). Untrusted hint: the Lean checker decides."""
+    lam = np.array(lam, dtype=float)
+    N = G.shape[1]
+    for j in (N - 1, N - 2):
+        rj = cost[j] + lam @ G[:, j]
+        margin = 1e-9 * (1.0 + abs(cost[j]) + float(np.abs(lam) @ np.abs(G[:, j])))
+        if rj < margin:
+            other = N - 2 if j == N - 1 else N - 1
+            cand = [i for i in range(G.shape[0]) if G[i, j] > 0 and (j == N - 1 or G[i, other] == 0)]
+            if not cand:
+                return None
+            i = max(cand, key=lambda t: G[t, j])
+            lam[i] += (margin - rj) / G[i, j]
+    return lam
 
 
 def run(R):
@@ -42,9 +63,11 @@ def run(R):
     from dreye.api.optimize.lsq_linear import lsq_linear_adaptive
     nsys = 24 if R.tier == "quick" else 200
     R.rule = ("systems 2-4 receptors x 2-6 sources with finite bounds (lb zero / mixed / positive), K none/scalar/vector, baseline; "
-              "target sets of 1-%d samples from well inside to far outside the gamut; default and explicit (non-unit-sum) neutral "
+              "target sets of 1-%d samples from well inside to far outside the gamut, including sets that are only marginally outside (an extreme "
+              "point of the gamut - all sources at ub or at lb - moved outwards, in total or in offset, by a relative 2^-19..2^-16, so the "
+              "optimal scales differ from 1 by a few ppm; deltas 1e-6/1e-5 there); default and explicit (non-unit-sum) neutral "
               "points; objectives 'unity' and 'max'; scale weights; deltas 1e-6..1e-3; solver passed through the keyword "
-              "(CLARABEL; the default ECOS is not installed). On dreye's (X, scales): bounds, positivity of the scales, every "
+              "(CLARABEL; the default ECOS is not installed); capture matrix and targets handed in as C/Fortran/strided arrays or nested lists. On dreye's (X, scales): bounds, positivity of the scales, every "
               "sample condition of the property evaluated exactly in Q (theorem adaptive_rows_iff), and a certificate from LP "
               "multipliers through the verified linLower that no feasible pair is closer to (1,1) / has a larger weighted sum "
               "(theorems unity/max_opt_of_cert). Non-trivial: at least one target outside the gamut." % (6 if R.tier == "quick" else 50))
@@ -68,24 +91,46 @@ def run(R):
         Ap, bp = apply_K(A, K, base)
         size = int(rng.integers(1, 7 if R.tier == "quick" else (51 if si % 10 == 0 else 9)))
         easy = (lbk == "zero" and bk == "zero")
-        mode = str(rng.choice(["inside", "mixed", "outside"])) if easy else str(rng.choice(["inside", "mixed"]))
+        nuk = str(rng.choice(["default", "explicit"]))
+        nu = np.ones(nf) if nuk == "default" else dyadic(rng, 0.5, 3, 1, size=nf)
+        # a marginally-outside set needs room to rescale the in-gamut members by a few ppm: full row rank, or no baseline
+        marg_ok = (ns >= nf) or bool(np.all(bp == 0))
+        mode = str(rng.choice(["inside", "mixed", "outside"] + ["marginal"] * marg_ok)) if easy else str(rng.choice(["inside", "mixed"] + ["marginal"] * marg_ok))
         X0 = lb + dyadic(rng, 0.125, 0.875, 3, size=(size, ns)) * (ub - lb)
         B = X0 @ Ap.T + bp
-        if mode != "inside":
+        marg = None
+        if mode == "marginal":
+            # boundary of the gamut, crossed by a few parts per million: well-inside targets plus one extreme point of the gamut (all sources
+            # at ub = largest total capture, or all at lb = smallest) moved outwards by a relative eta = 2^-19..2^-16, so that the set has
+            # to be scaled by a factor that differs from 1 only by ~eta; the requested deltas are the tight ones (1e-6, 1e-5)
+            mk = str(rng.choice(["bright", "bright"] + (["radial"] if ns >= nf else []) + (["dark"] if float(np.sum(Ap @ lb + bp)) > 0.5 else [])))
+            eta = 2.0 ** -int(rng.integers(16, 20))
+            i = int(rng.integers(size))
+            xc = lb.copy() if mk == "dark" else ub.copy()
+            Bc = Ap @ xc + bp
+            if mk == "bright":
+                B[i] = Bc * (1 + eta)
+            elif mk == "dark":
+                B[i] = Bc * (1 - eta)
+            else:
+                npt = nu / nu.sum() * Bc.sum()      # offset from the neutral direction stretched, total unchanged
+                B[i] = npt + (Bc - npt) * (1 + eta)
+            marg = dict(kind=mk, eta=eta, sample=i)
+            R.count("marginal:%s" % mk); R.count("marginal:eta=2^%d" % int(np.log2(eta)))
+        if mode in ("mixed", "outside"):
             for i in range(size):
                 if mode == "outside" or rng.integers(2):
                     B[i] = B[i] * dyadic(rng, 0.25, 4, 1, size=nf) * float(rng.choice([1.0, 3.0]))
                     # make a source needed below its lower bound sometimes
                     if rng.integers(3) == 0 and easy:
                         B[i] = bp + (B[i] - bp) * 0.05
-        nuk = str(rng.choice(["default", "explicit"]))
-        nu = np.ones(nf) if nuk == "default" else dyadic(rng, 0.5, 3, 1, size=nf)
         obj = str(rng.choice(["unity", "max"]))
         sw = np.array([1.0, 1.0]) if rng.integers(2) else dyadic(rng, 0.5, 2, 1, size=2)
-        d1 = float(rng.choice([1e-6, 1e-5, 1e-4, 1e-3])); dr = float(rng.choice([1e-6, 1e-5, 1e-4, 1e-3]))
+        dch = [1e-6, 1e-5] if mode == "marginal" else [1e-6, 1e-5, 1e-4, 1e-3]
+        d1 = float(rng.choice(dch)); dr = float(rng.choice(dch))
         via = "estimator" if si % 3 == 0 else "function"
         c = dict(k=k, nf=nf, ns=ns, size=size, A=A, K=K, K_kind=kk, baseline=base, baseline_kind=bk, lb=lb, ub=ub, lb_kind=lbk, B=B, targets=mode,
-                 neutral_kind=nuk, neutral_point=(None if nuk == "default" else nu), objective=obj, scale_w=sw, delta_norm1=d1, delta_radius=dr, via=via)
+                 neutral_kind=nuk, neutral_point=(None if nuk == "default" else nu), objective=obj, scale_w=sw, delta_norm1=d1, delta_radius=dr, via=via, marginal=marg)
         for key in ("K_kind", "baseline_kind", "lb_kind", "targets", "neutral_kind", "objective", "via"):
             R.count("%s:%s" % (key, c[key]))
         R.count("size:%d" % size)
@@ -94,12 +139,17 @@ def run(R):
             filt = np.hstack([np.zeros((nf, 1)), A, np.zeros((nf, 1))]); src = np.hstack([np.zeros((ns, 1)), np.eye(ns), np.zeros((ns, 1))])
             st, out = call(lambda: dreye.ReceptorEstimator(filt, domain=1.0, K=(1.0 if K is None else K), baseline=base, sources=src, lb=lb, ub=ub).fit_adaptive(B.copy(), **kw))
         else:
-            st, out = call(lsq_linear_adaptive, A, B.copy(), lb=lb, ub=ub, K=K, baseline=base, return_pred=True, **kw)
+            rg = R.rng(3, si)   # representation of the arguments (values unchanged; the model sees values only)
+            st, out = call(lsq_linear_adaptive, as_given(rg, A.copy(), R, "A", kinds=("same", "fortran", "strided")),
+                           as_given(rg, B.copy(), R, "B", kinds=("same", "fortran", "strided", "list")), lb=lb, ub=ub, K=K, baseline=base, return_pred=True, **kw)
         job = dict(c=c, st=st, out=out, Ap=Ap, bp=bp, nu=nu)
         jobs.append(job)
         if st != "ok":
             continue
         Xh, sc, Bp = np.asarray(out[0]), np.asarray(out[1]), np.asarray(out[2])
+        if mode == "marginal":
+            for dev in np.abs(sc - 1):
+                R.count("marginal:|scale-1| %s" % ("= 0" if dev == 0 else "< 1e-6" if dev < 1e-6 else "in [1e-6, 1e-5)" if dev < 1e-5 else "in [1e-5, 1e-4)" if dev < 1e-4 else ">= 1e-4"))
         z = np.concatenate([np.clip(Xh, lb, ub).ravel(), np.maximum(sc, 0.0)])
         G, h = build_rows(Ap, bp, nu, B, d1, dr)
         N = len(z)
@@ -109,11 +159,19 @@ def run(R):
             cost = 2 * M.T @ (M @ z - r)
         else:
             cost = np.zeros(N); cost[-2:] = -sw
-        lam = lp_duals(cost, G, h, lbz, ubz)
+        # certificate over ALL feasible pairs (scales unbounded above); multipliers repaired for exact dual feasibility
+        ubz_inf = np.concatenate([np.tile(ub, size), [np.inf, np.inf]])
+        lam = lp_duals(cost, G, h, lbz, ubz_inf)
+        lam_r = None if lam is None else repair_for_unbounded_scales(cost, G, lam)
         job["z"] = z
-        if lam is not None:
-            R.driver.ask("a" + k, "adaptive", obj, ns, ms(Ap), vs(bp), vs(nu), ms(B), rs(d1), rs(dr), rs(sw[0]), rs(sw[1]), vs(lb), ub_text(ub), rs(SMAX), vs(lam), vs(z))
-            job["asked"] = True
+        if lam_r is not None:
+            R.driver.ask("a" + k, "adaptive", obj, ns, ms(Ap), vs(bp), vs(nu), ms(B), rs(d1), rs(dr), rs(sw[0]), rs(sw[1]), vs(lb), ub_text(ub), "inf", vs(lam_r), vs(z))
+            job["asked"] = True; job["smax"] = "inf"
+        # fallback (restricted certificate, counted separately): scales <= SMAX
+        lam2 = lp_duals(cost, G, h, lbz, ubz)
+        if lam2 is not None:
+            R.driver.ask("b" + k, "adaptive", obj, ns, ms(Ap), vs(bp), vs(nu), ms(B), rs(d1), rs(dr), rs(sw[0]), rs(sw[1]), vs(lb), ub_text(ub), rs(SMAX), vs(lam2), vs(z))
+            job["asked_b"] = True
     R.driver.run()
     for job in jobs:
         c = job["c"]; k = c["k"]
@@ -149,13 +207,22 @@ def run(R):
             R.failB(dict(c, impl=[Xh, sc]), "fitted total capture differs from scale0 x target total by %.4g > delta %.0e" % (float(np.max(tot)), c["delta_norm1"]), sig + ":total-condition:neutral=" + c["neutral_kind"])
         if np.max(rad) > c["delta_radius"] + slack:
             R.failB(dict(c, impl=[Xh, sc]), "fitted offset from the neutral direction differs from scale1 x target offset by %.4g > delta %.0e" % (float(np.max(rad)), c["delta_radius"]), sig + ":radial-condition:neutral=" + c["neutral_kind"])
-        if not job.get("asked"):
+        if not (job.get("asked") or job.get("asked_b")):
             R.cert(False); R.failA(c, "no multipliers available for the optimality certificate"); continue
-        t = R.driver.get("a" + k)
-        objv = t.rat(); tok = t.tok(); inb = t.bool(); viol = t.rat()
-        delta = None if tok == "none" else float(parse_rat(tok))
         scale = float(np.sum(c["scale_w"])) + 1.0
-        ok = delta is not None and delta <= 1e-3 * scale
+        ok = False; delta = None; objv = 0
+        for rid, label in (("a", "all-feasible-pairs"), ("b", "scales<=%g" % SMAX)):
+            if not job.get("asked" if rid == "a" else "asked_b"):
+                continue
+            t = R.driver.get(rid + k)
+            objv = t.rat(); tok = t.tok(); inb = t.bool(); viol = t.rat()
+            d_ = None if tok == "none" else float(parse_rat(tok))
+            if delta is None:
+                delta = d_
+            if d_ is not None and d_ <= 1e-3 * scale:
+                ok = True; delta = d_
+                R.count("certificate-range:" + label)
+                break
         if c["objective"] == "unity" and float(objv) <= 1e-3 * scale:
             ok = True    # a sum of squares is >= 0 at every feasible point (Cert.lsObj_nonneg): a value this small is optimal up to itself
         R.cert(ok)
